@@ -13,14 +13,14 @@
 use crate::{
     error::{WriterError, WriterResult},
     model::{
-        TryFromNode,
+        Namespace, TryFromNode,
         doc::RustDocument,
         node::RustNode,
         soap::{binding::SoapBinding, message::SoapMessage, port::SoapPort, service::SoapService},
     },
 };
 use roxmltree::Node;
-use std::{collections::HashMap, fmt::Display, io, sync::atomic::AtomicBool};
+use std::{collections::HashMap, fmt::Display, io, rc::Rc, sync::atomic::AtomicBool};
 
 pub const WELL_KNOWN_NAMESPACES: &[&str] = &[
     "http://www.w3.org/XML/1998/namespace",
@@ -127,7 +127,7 @@ impl XmlReader {
             file.processed.store(false, std::sync::atomic::Ordering::SeqCst);
         }
 
-        Self::read_xml_internal(content, start_with_file, files)
+        Self::read_xml_internal(content, start_with_file, files, &[])
     }
 
     #[cfg(test)]
@@ -137,7 +137,12 @@ impl XmlReader {
         Self::read_xml(&files_to_read)
     }
 
-    fn read_xml_internal(file: &FileContent, file_name: &str, files: &Files) -> WriterResult<RustDocument> {
+    fn read_xml_internal(
+        file: &FileContent,
+        file_name: &str,
+        files: &Files,
+        known_namespaces: &[Rc<Namespace>],
+    ) -> WriterResult<RustDocument> {
         if file.processed.load(std::sync::atomic::Ordering::SeqCst) {
             let rust_doc = RustDocument::empty();
             return Ok(rust_doc);
@@ -146,7 +151,7 @@ impl XmlReader {
         let xml = &file.xml;
         let doc = roxmltree::Document::parse(xml)
             .map_err(|e| WriterError::new(format!("Unable to parse file {file_name}: {e}")))?;
-        let mut rust_doc = RustDocument::init(&doc);
+        let mut rust_doc = RustDocument::init_with_known_namespaces(&doc, known_namespaces);
 
         // mark the file before its imports are followed, so that import cycles (mutual and self
         // imports) find it processed instead of re-entering it
@@ -229,7 +234,8 @@ impl XmlReader {
     fn read_xsd<'n>(node: Node<'n, 'n>, files: &Files, doc: &mut RustDocument) -> WriterResult<()> {
         for child in node.children() {
             if child.tag_name().name() == "import" {
-                doc.extend(Self::process_import(child, files)?);
+                let imported = Self::process_import(child, files, &doc.namespaces)?;
+                doc.extend(imported);
                 continue;
             }
 
@@ -241,7 +247,7 @@ impl XmlReader {
         Ok(())
     }
 
-    fn process_import(node: Node, files: &Files) -> WriterResult<RustDocument> {
+    fn process_import(node: Node, files: &Files, known_namespaces: &[Rc<Namespace>]) -> WriterResult<RustDocument> {
         let namespace = node.attribute("namespace").ok_or(WriterError::NamespaceMissing)?;
 
         if WELL_KNOWN_NAMESPACES.contains(&namespace) {
@@ -261,7 +267,7 @@ impl XmlReader {
             return Ok(RustDocument::empty());
         }
 
-        let rust_doc = Self::read_xml_internal(file, schema_location, files)?;
+        let rust_doc = Self::read_xml_internal(file, schema_location, files, known_namespaces)?;
         Ok(rust_doc)
     }
 }
@@ -279,7 +285,7 @@ mod tests {
         const XSD: &str = include_str!("../test-data/single-complex.xsd");
         let files = Files::new("types.xsd", XSD);
         let (file_name, file) = files.map.get_key_value("types.xsd").unwrap();
-        let nodes = XmlReader::read_xml_internal(file, file_name, &files).unwrap().nodes;
+        let nodes = XmlReader::read_xml_internal(file, file_name, &files, &[]).unwrap().nodes;
         assert_eq!(nodes.len(), 1);
         let node = nodes.first().unwrap();
         let RustType::Complex(props) = &node.rust_type else {
@@ -316,7 +322,7 @@ mod tests {
         files.add("types.xsd", XSD_TYPES);
 
         let (file_name, file) = files.map.get_key_value("messages.xsd").unwrap();
-        let nodes = XmlReader::read_xml_internal(file, file_name, &files).unwrap().nodes;
+        let nodes = XmlReader::read_xml_internal(file, file_name, &files, &[]).unwrap().nodes;
         assert_eq!(nodes.len(), 2);
 
         let type_node = nodes.first().unwrap();
@@ -363,7 +369,7 @@ mod tests {
         let files = Files::new("types.xsd", XSD_TYPES);
 
         let (file_name, file) = files.map.get_key_value("types.xsd").unwrap();
-        let rust_doc = XmlReader::read_xml_internal(file, file_name, &files).unwrap();
+        let rust_doc = XmlReader::read_xml_internal(file, file_name, &files, &[]).unwrap();
 
         // check that we found the two namespaces
         assert_eq!(rust_doc.namespaces.len(), 2, "Expected two namespaces");
@@ -416,7 +422,7 @@ mod tests {
         let files = Files::new("types.xsd", XSD_TYPES);
 
         let (file_name, file) = files.map.get_key_value("types.xsd").unwrap();
-        let rust_doc = XmlReader::read_xml_internal(file, file_name, &files).unwrap();
+        let rust_doc = XmlReader::read_xml_internal(file, file_name, &files, &[]).unwrap();
         assert_eq!(rust_doc.nodes.len(), 2);
 
         // check node name
@@ -430,7 +436,7 @@ mod tests {
         let files = Files::new("types.xsd", XSD_TYPES);
 
         let (file_name, file) = files.map.get_key_value("types.xsd").unwrap();
-        let rust_doc = XmlReader::read_xml_internal(file, file_name, &files).unwrap();
+        let rust_doc = XmlReader::read_xml_internal(file, file_name, &files, &[]).unwrap();
         assert_eq!(rust_doc.nodes.len(), 3);
 
         // check node name
@@ -446,7 +452,7 @@ mod tests {
         files.add("types.xsd", XSD_TYPES);
 
         let (file_name, file) = files.map.get_key_value("messages.xsd").unwrap();
-        let nodes = XmlReader::read_xml_internal(file, file_name, &files).unwrap().nodes;
+        let nodes = XmlReader::read_xml_internal(file, file_name, &files, &[]).unwrap().nodes;
         assert_eq!(nodes.len(), 1457);
 
         // get the GetUserAvailabilityRequestType
